@@ -30,6 +30,11 @@ def judge_reopen(case, times):
                 if k in b and k not in a:
                     # was it expired before the close rather than absent?
                     if k in steps[i]["dump"]:
+                        e = int(steps[i]["dump"][k][0])
+                        if e != 0 and e + 20 < steps[i]["t0"] and (b[k][0] == 0 or b[k][0] > now + 50):
+                            # its deadline had passed well before the pre-close probe, and it is alive after Open
+                            out.append({"case": case["id"], "step": i + 3, "signature": "REOPEN/expired-alive",
+                                        "text": "key %s had deadline %d (passed before Close) and is alive after Open with deadline %d: %s" % (k, e, b[k][0], b[k][1][:60])})
                         continue
                     out.append({"case": case["id"], "step": i + 3, "signature": "REOPEN/resurrected",
                                 "text": "key %s was absent before Close and exists after Open: %s" % (k, b[k][1][:80])})
